@@ -3,7 +3,8 @@
    {"op":"match1d","c1":[["s","e"],…],"c2":[["s","e"],…],"tol":"t","ptol":"p"}
      -> {"triples":[[i,j,"w"],…],"avg":[[…]],"int":[[…]],"none":[[…]]}
    cells are pairs of line parameters (arc length along the common line) of the two nodes of a cell;
-   tol = tolerance of match_1d's unscaled branch, ptol = tolerance of segments_3d in arc-length units. -/
+   tol = tolerance of match_1d's unscaled branch, ptol = tolerance of segments_3d in arc-length units (relative to the extent of the
+   tessellations since line_tessellation normalises them: 1e-8 * scale * L / |d_k|, computed by the harness). -/
 import PorepyVerif.Common.Wire
 import PorepyVerif.C33.Model
 open Lean PV PorepyVerif.C33
